@@ -384,8 +384,8 @@ type sortedStates []*EventState
 func (e sortedStates) Len() int          { return len(e) }
 func (e sortedStates) Swap(i int, j int) { e[i], e[j] = e[j], e[i] }
 func (e sortedStates) Less(i int, j int) bool {
-	if e[i].Level > e[j].Level {
-		return true
+	if e[i].Level != e[j].Level {
+		return e[i].Level > e[j].Level
 	}
 	return e[i].ID < e[j].ID
 }
